@@ -29,6 +29,7 @@ def run(ctx):
     ctx.rule("R10.sweep", "no may-raise site on any sweep path")
     ctx.rule("R10.conn", "connections use SQLite's default deferred transactions")
     e3 = e3mod.get(model)
+    e3.require_proved()
     n = {"fk": 0, "dup": 0, "inv": 0}
     for f in e3.findings:
         pth = render_path(f.path.events) if (f.path and not f.ok) else None
